@@ -2,8 +2,9 @@
 """tools/seedkeep.py Cxx n  — after tools/seedverify.sh and tools/seedrun.sh: store the seeded change under /verif/seeded/Cxx-n with what was run"""
 import json, os, re, shutil, sys
 p, n = sys.argv[1], sys.argv[2]
-src = "/tmp/seed_%s/out/%s" % (p, n)
-dst = "/verif/seeded/%s-%s" % (p, n)
+tag = os.environ.get("SEEDTAG", n)
+src = "%s_%s/out/%s" % (os.environ.get("SEEDROOT", "/tmp/seed"), p, n)
+dst = "/verif/seeded/%s-%s" % (p, tag)
 os.makedirs(dst, exist_ok=True)
 for f in ("patch.diff", "demo.py"):
     shutil.copy(os.path.join(src, f), os.path.join(dst, f))
@@ -11,7 +12,8 @@ meta = json.load(open(os.path.join(src, "meta.json")))
 meta["breaks_property"] = p
 meta["confirmed_by_maintainer"] = ("tools/seedverify.sh: patch applies to a clean worktree; demo.py exits 0 on the clean tree and 1 with the "
                                    "patch; all 354 baseline tests still pass with the patch")
-log = open("/tmp/seedres/%s-%s.txt" % (p, n)).read()
+log = open("/tmp/seedres/%s-%s.txt" % (p, tag)).read()
+meta["base_commit_of_repo"] = os.popen("git -C /repo rev-parse --short HEAD").read().strip()
 runs = []
 for blk in re.split(r"(?m)^== ", log)[1:]:
     prop = blk.split()[0]
